@@ -5,7 +5,7 @@
 (* the sequential machine of RV32.tla and packaging a case for the Go      *)
 (* harness.                                                                *)
 (***************************************************************************)
-EXTENDS RV32, Json
+EXTENDS Findings, Json
 
 (* registers every family may use; the initial state of a case gives each a value *)
 PRegs == {"ra", "a0", "a1", "t0", "t1", "t2", "t3"}
